@@ -1,3 +1,10 @@
+// a list cut immediately AFTER its first deletion marker
+pub open spec fn cut_after_first_marker(full: Seq<Entry>, r: Seq<Entry>) -> bool {
+    r.len() <= full.len() && r == full.subrange(0, r.len() as int)
+    && (forall|i: int| 0 <= i < r.len() - 1 ==> !r[i].deleted())
+    && (r.len() < full.len() ==> r.len() > 0 && r[r.len() - 1].deleted())
+    && (r.len() == full.len() ==> forall|i: int| 0 <= i < r.len() - 1 ==> !full[i].deleted())
+}
 // C01: the cross-blob merge is a left fold of `latest` (first seen wins ties; blobs are visited
 // active first, then closed blobs newest first)
 pub open spec fn latest_of(a: ReadResult<Entry>, b: ReadResult<Entry>) -> ReadResult<Entry> {
